@@ -30,6 +30,7 @@ fn opt_u32(s: &mut crate::vsrc::S) -> Option<u32> {
 // @unwind 2
 // @bound one on_incoming_flow step from an arbitrary sender flow state; all 32-bit values
 // @desc link-credit_snd := delivery-count_rcv + link-credit_rcv - delivery-count_snd in RFC-1982 serial arithmetic, floored at 0 when the deliveries in flight already exceed a reduced grant; unset delivery-count => initial; unset link-credit => unchanged; drain => credit 0, delivery-count advanced, flow returned; echo => flow returned
+// @also C15
 pharness!(c08_sender_on_incoming_flow, |s| {
     let pre = any_inner(s);
     let st = VSenderFlow::new(pre);
@@ -168,6 +169,7 @@ pharness!(c09_receiver_consume, |s| {
 // @unwind 2
 // @bound one on_incoming_flow step from an arbitrary receiver flow state
 // @desc delivery-count and available are mirrored from the sender's flow; credit stays the receiver's; echo honoured; the flow built reports exactly the stored state
+// @also C15
 pharness!(c09_receiver_on_incoming_flow, |s| {
     let pre = any_inner(s);
     let st = VReceiverFlow::new(pre);
